@@ -135,7 +135,7 @@ def _candidate_sequence(kind: str, feed: List[int]):
             saved[(mod, name)] = getattr(mod, name)
             setattr(mod, name, getattr(stub, name))
     try:
-        srandom.use_deterministic_prng(True, seed=12345)
+        srandom.use_deterministic_prng(True, seed=0 if kind in ("choice", "array_move") else 12345)
         if kind == "choice":
             pattern = [Choice([0, 1, 2], default=0), Choice([0, 1], default=1)]
         elif kind == "array":
@@ -182,28 +182,38 @@ def _pattern_symmetric(g, H, W) -> bool:
     return all((g[y][x] != 0) == (g[H - 1 - y][W - 1 - x] != 0) for y in range(H) for x in range(W))
 
 
+BH = int(os.environ.get("VERIF_BH", "2"))
+BW = int(os.environ.get("VERIF_BW", "2"))
+OPTLO = int(os.environ.get("VERIF_OPTLO", "0"))
+OPTHI = int(os.environ.get("VERIF_OPTHI", "5"))
+
+
 def h_neighbors(c0: int, c1: int, c2: int, c3: int, d0: int, d1: int, opt: int) -> bool:
     """
-    ArrayBuilder2D on a 2x2 board, current grid symbolic over the choice set, PRNG draws symbolic:
+    ArrayBuilder2D on a BH x BW board (<= 4 cells), current grid symbolic over the choice set, PRNG draws symbolic:
     every candidate differs from current only at listed cells and by choice-set values; with symmetry a point-symmetric
     clue pattern stays point-symmetric; disallow_adjacent never lets a value-setting update create adjacent non-defaults; copy_with_update
     leaves its argument untouched
-    pre: 0 <= c0 <= 2 and 0 <= c1 <= 2 and 0 <= c2 <= 2 and 0 <= c3 <= 2 and 0 <= d0 < TWO32 and 0 <= d1 < TWO32 and 0 <= opt <= 3
+    pre: 0 <= c0 <= 2 and 0 <= c1 <= 2 and 0 <= c2 <= 2 and 0 <= c3 <= 2 and 0 <= d0 < TWO32 and 0 <= d1 < TWO32 and OPTLO <= opt <= OPTHI
     post: _
     """
-    H, W = 2, 2
+    H, W = BH, BW
     choice = [0, 1, 2]
-    sym = opt in (1, 3)
+    sym = opt in (1, 3, 5)
     adj = opt in (2, 3)
-    b = ArrayBuilder2D(H, W, choice, default=0, symmetry=sym, disallow_adjacent=adj)
-    cur = _grid([c0, c1, c2, c3], H, W)
+    move = opt in (4, 5)
+    b = ArrayBuilder2D(H, W, choice, default=0, symmetry=sym, disallow_adjacent=adj, use_move=move)
+    cur = _grid([c0, c1, c2, c3][:H * W], H, W)
     if adj:
         # start from a grid that already respects the adjacency option
         for y in range(H):
             for x in range(W):
                 if cur[y][x] != 0 and ((x + 1 < W and cur[y][x + 1] != 0) or (y + 1 < H and cur[y + 1][x] != 0)):
                     return True
-    _with_feed([d0, d1])
+    if move:
+        srandom.use_deterministic_prng(True, seed=5)     # 10 draws per cell: kept concrete (the real xorshift stream)
+    else:
+        _with_feed([d0, d1])
     snapshot = copy.deepcopy(cur)
     for upd in b.candidates(cur):
         nxt = b.copy_with_update(cur, upd)
@@ -218,8 +228,11 @@ def h_neighbors(c0: int, c1: int, c2: int, c3: int, d0: int, d1: int, opt: int) 
             for x in range(W):
                 if (y, x) not in touched and nxt[y][x] != cur[y][x]:
                     return False
+        final = {}
         for (y, x, v) in upd:
-            if nxt[y][x] not in choice:
+            final[(y, x)] = v          # applying the listed triples in order
+        for (y, x), v in final.items():
+            if nxt[y][x] != v:
                 return False
         if sym and _pattern_symmetric(cur, H, W) and not _pattern_symmetric(nxt, H, W):
             return False
